@@ -14,7 +14,8 @@
 EXTENDS MC_C13
 
 CONSTANTS Big,         \* TRUE: include the 100 KB / 300 KB runs
-          Quick        \* TRUE: fewer dash sets / whitespace styles / writers
+          Quick,       \* TRUE: fewer dash sets / whitespace styles / writers
+          Only         \* "all", or "dashsweep": only the dashed token-count sweeps (run for C13: a dash works at every template size)
 
 PadStyles == {"p", "b", "c", "e"}
 
@@ -55,17 +56,26 @@ SweepRuns(c) ==
       pads |-> [i \in 1..MaxSym |-> IF i = 1 THEN [len |-> (IF st = "d" THEN 14 ELSE 6) * k, style |-> st, total |-> 0]
                                     ELSE IF i = 2 THEN [len |-> 4200, style |-> "p", total |-> 0]
                                     ELSE [len |-> 0, style |-> "p", total |-> 0]]] : k \in SweepKs, st \in {"d", "e"}}
-SweepCases == UNION {{[s |-> name, D |-> D, style |-> "sp", padAt |-> {1, 2}, ps |-> "sweep"]
+\* the same below the large-template threshold (the other tokenizer): the token count b + 3k + 4j (+1) passes through every
+\* value up to ~1100, hence through every capacity step of the pooled token buffer, whatever it has grown to
+SmallKs == IF Quick THEN 60..350 ELSE 1..640
+SmallSweepRuns(c) ==
+    {[label |-> "small" \o ToString(k) \o "+" \o ToString(j), tp |-> SourcesOf(c, FALSE), xcalls |-> [id \in {} |-> 0], writer |-> "",
+      pads |-> [i \in 1..MaxSym |-> IF i = 1 THEN [len |-> 6 * k, style |-> "e", total |-> 0]
+                                    ELSE IF i = 2 THEN [len |-> 14 * j, style |-> "d", total |-> 0]
+                                    ELSE [len |-> 0, style |-> "p", total |-> 0]]] : k \in SmallKs, j \in 0..2}
+SweepCases == UNION {{[s |-> name, D |-> D, style |-> "sp", padAt |-> {1, 2}, ps |-> "sweepsmall"]
+                        : D \in {{}, 1..NDelims(MainPieces(name))}} : name \in {"print2", "ifelse"}} \cup UNION {{[s |-> name, D |-> D, style |-> "sp", padAt |-> {1, 2}, ps |-> "sweep"]
                         : D \in {{}, 1..NDelims(MainPieces(name))}} : name \in {"print2", "ifelse"}}
 CaseOf14(c) ==
-    [prop |-> "C14", key |-> ToJson(c),
+    [prop |-> IF Only = "dashsweep" THEN "C13" ELSE "C14", key |-> ToJson(c),
      tags |-> {"s:" \o c.s, "style:" \o c.style, "ndash:" \o ToString(Cardinality(c.D)), "pad:" \o c.ps,
                "npads:" \o ToString(Cardinality(c.padAt))},
      entry |-> "main", ctx |-> Ctx,
-     runs |-> IF c.ps = "sweep" THEN SweepRuns(c) ELSE Runs14(c),
+     runs |-> IF c.ps = "sweep" THEN SweepRuns(c) ELSE IF c.ps = "sweepsmall" THEN SmallSweepRuns(c) ELSE Runs14(c),
      expect |-> [ok |-> TRUE, out |-> Expected(c), err |-> "", calls |-> [id \in {} |-> 0]]]
 
-Init14 == cs \in Cases14 \cup SweepCases
+Init14 == cs \in IF Only = "dashsweep" THEN {c \in SweepCases : c.D # {}} ELSE Cases14 \cup SweepCases
 Spec14 == Init14 /\ [][UNCHANGED cs]_cs
 Emit14 == PrintT(ToJson(CaseOf14(cs)))
 
